@@ -101,6 +101,16 @@ def gen_cases(tier, seed):
         i += 1
         yield {'family': 'row_func_spawns_child', 'workers': w, 'pred': 'none', 'n': 20, 'idx': i, 'seed': seed, 'rep': 0,
                'layout': 'single', 'yield_injection': False}
+    # the default number of workers (num_processors=None) in a process that may run on ONE cpu only (taskset / cpuset)
+    i += 1
+    yield {'family': 'default_workers_one_cpu', 'workers': 0, 'pred': 'none', 'n': 40, 'idx': i, 'seed': seed, 'rep': 0,
+           'layout': 'single', 'yield_injection': False}
+    # the caller's process uses another multiprocessing start method (forkserver / spawn): a stand-alone program with a
+    # module-level row function
+    for method in ('forkserver', 'spawn'):
+        i += 1
+        yield {'family': 'start_method', 'method': method, 'workers': 2, 'pred': 'every_3rd', 'n': 90, 'idx': i, 'seed': seed,
+               'rep': 0, 'layout': 'single', 'yield_injection': False}
     # rows far larger than a pipe buffer (64 KiB): several workers deliver at the same time, every row arrives whole
     for w in (2, 4) if tier == 'quick' else (1, 2, 3, 4):
         i += 1
@@ -216,7 +226,9 @@ def child_main(case, logpath, outpath):
         sel = None
     if case['family'] == 'after_sort':
         steps.append(d.sort_rows('{id}'))
-    steps.append(d.parallelize(row_func, num_processors=w, resources=sel, predicate=pred))
+    if case['family'] == 'default_workers_one_cpu':
+        os.sched_setaffinity(0, {sorted(os.sched_getaffinity(0))[-1]})
+    steps.append(d.parallelize(row_func, num_processors=w or None, resources=sel, predicate=pred))
     if case['family'] == 'two_parallelize_steps':
         def second(row):
             time.sleep(0.002)
@@ -264,7 +276,63 @@ def install_yield_injection():
         pass
 
 
+START_METHOD_SCRIPT = r'''
+import json, multiprocessing, sys
+import dataflows as d
+
+
+def mark(row):
+    row['seen'] = True
+
+
+def every_3rd(row):
+    return row['id'] % 3 != 0
+
+
+if __name__ == '__main__':
+    multiprocessing.set_start_method(sys.argv[1])
+    rows = [{'id': i, 'seen': False} for i in range(90)]
+    res = d.Flow(rows, d.parallelize(mark, num_processors=int(sys.argv[2]), predicate=every_3rd)).results()[0][0]
+    print('RESULT ' + json.dumps(res))
+'''
+
+
+def run_start_method(case):
+    import subprocess
+    counters = {'runs_checked': 0, 'events_logged': 0, 'rows_delivered': 0}
+    cfg = {k: case[k] for k in ('family', 'method', 'workers', 'n')}
+    with open('sm_prog.py', 'w') as f:
+        f.write(START_METHOD_SCRIPT)
+    try:
+        p = subprocess.run([boot.PY, '-W', 'ignore', 'sm_prog.py', case['method'], str(case['workers'])], capture_output=True, text=True,
+                           timeout=120, env=dict(os.environ, PYTHONPATH=boot.REPO))
+    except subprocess.TimeoutExpired:
+        return dict(nontrivial=False, violations=[], cov={}, counters=counters, inconclusive='start-method program timed out')
+    line = next((ln for ln in p.stdout.splitlines() if ln.startswith('RESULT ')), None)
+    if line is None:
+        return dict(nontrivial=False, violations=[], cov={}, counters=counters,
+                    inconclusive='start-method program gave no result: %s' % p.stderr[-300:])
+    rows = json.loads(line[7:])
+    counters['runs_checked'] += 1
+    counters['rows_delivered'] += len(rows)
+    viol = []
+    ids = sorted(r['id'] for r in rows)
+    if ids != list(range(90)):
+        viol.append({'kind': 'exactly_once', 'mech': 'exactly_once', 'config': cfg,
+                     'msg': '%r: delivered ids differ from the input: %d of 90 rows, lost %r' % (cfg, len(ids), sorted(set(range(90)) - set(ids))[:8])})
+    else:
+        bad = [r['id'] for r in rows if r['seen'] != (r['id'] % 3 != 0)]
+        if bad:
+            viol.append({'kind': 'applied_once', 'mech': 'applied_once', 'config': cfg,
+                         'msg': '%r: rows %r.. were (not) passed through the row function against the predicate' % (cfg, bad[:6])})
+    return dict(nontrivial=True, violations=viol, counters=counters,
+                cov={'family_x_workers': {'start_method/%s/%d' % (case['method'], case['workers']): 1}, 'predicate_x_len': {},
+                     'interleaving_signatures': {}, 'race_orders': {}}, sample={'config': cfg})
+
+
 def run_case(case):
+    if case['family'] == 'start_method':
+        return run_start_method(case)
     counters = {'runs_checked': 0, 'events_logged': 0, 'rows_delivered': 0}
     cov = {'family_x_workers': {}, 'predicate_x_len': {}, 'interleaving_signatures': {}, 'race_orders': {}}
     viol = []
